@@ -365,6 +365,21 @@ def _quirks():
         q["endDoLabelMismatchFails"] = True
     else:
         raise ExtractionError("BlockBase.match: label-mismatch branch has an unmodelled shape")
+    # the name tests at the end statement of a match_labels block (labelled DO + END DO)
+    assigns = [n for n in ast.walk(tree) if isinstance(n, ast.Assign)
+               and any(isinstance(t, ast.Name) and t.id == "end_do_names" for t in n.targets)]
+    uses = [n for n in ast.walk(tree) if isinstance(n, ast.Name) and n.id == "end_do_names"
+            and isinstance(n.ctx, ast.Load)]
+    if not assigns and not uses:
+        q["labelDoEndNames"] = False
+    elif len(assigns) == 1 and len(uses) == 2:
+        d = ast.dump(assigns[0].value)
+        ok = all(k in d for k in ("match_labels", "match_names", "get_end_name", "get_start_name"))
+        if not ok:
+            raise ExtractionError("BlockBase.match: end_do_names has an unmodelled definition")
+        q["labelDoEndNames"] = True
+    else:
+        raise ExtractionError("BlockBase.match: end_do_names used in an unmodelled way")
     # the same-label DO hook: does it skip leading comments first?
     hook_ifs = [n for n in ast.walk(tree) if isinstance(n, ast.If)
                 and isinstance(n.test, ast.Name) and n.test.id == "enable_do_label_construct_hook"]
@@ -687,7 +702,8 @@ def render_lean(t):
                                              "nameMismatchSyntax", "nameMismatchRemoves",
                                              "seqRestores", "startNameNoneSyntax",
                                              "programContinues", "programRollback",
-                                             "hookSkipsComments", "endDoLabelMismatchFails"]))
+                                             "hookSkipsComments", "endDoLabelMismatchFails",
+                                             "labelDoEndNames"]))
     L.append("  }")
     L.append("")
     L.append("def program : Cls := %d" % t["program"])
